@@ -10,7 +10,7 @@ RULE = ("traces = one per (topology, start node, callback mode) for every topolo
         "Trace_ChainRec; non-trivial = subtree of the start node has at least 3 nodes; distinct by (topology, start, mode)")
 
 
-def record(P, start, mode, api, pre=None, ed=None, copy_after=False, nones=False, handles=False, negkey=False):
+def record(P, start, mode, api, pre=None, ed=None, copy_after=False, nones=False, handles=False, negkey=False, forest=False):
     from swcgeom.core import Tree
     from swcgeom.core.swc_utils import traverse
     events, counter = [], [0]
@@ -63,6 +63,10 @@ def record(P, start, mode, api, pre=None, ed=None, copy_after=False, nones=False
         else:
             ret = t.traverse(root=start, **kw) if api == 1 else (t[start - n] if negkey else t.node(start)).traverse(**kw)
     elif api == 0:
+        if forest:
+            # the table holds a second tree after the first (ids shifted by n): nothing of it may be visited
+            ids = np.arange(2 * n, dtype=np.int32)
+            pids = np.concatenate([pids, np.where(pids == -1, -1, pids + n)]).astype(np.int32)
         ret = traverse((ids, pids), root=start, **kw)
     else:
         t = Tree(n, source=lib.SRC, id=ids, pid=pids)
@@ -77,7 +81,7 @@ def execute(c):
     events = []
     try:
         events = record(c["P"], c["start"], c["mode"], api, c.get("pre"), c.get("ed"), lib.vid(c) % 2 == 1, nones=c.get("nones", lib.vid(c) % 4 == 2),
-                        handles=(api != 0 and c.get("nones") is None and lib.vid(c) % 4 == 3), negkey=(lib.vid(c) % 2 == 0))
+                        handles=(api != 0 and c.get("nones") is None and lib.vid(c) % 4 == 3), negkey=(lib.vid(c) % 2 == 0), forest=(lib.vid(c) % 5 == 1 and c.get("pre") is None))
     except RecursionError:
         return {"events": [], "err": "RecursionError"}
     return {"events": events}
